@@ -71,6 +71,15 @@ pub struct ReplayFile {
     pub expect: Violation,
     pub profile: String,
     pub note: String,
+    /// Plans executed before `plan` on the same thread of the same process. Empty unless the violation
+    /// depends on state the library keeps between calls (a cache, a lazily initialised table, a counter):
+    /// then these earlier runs are what puts that state in place, and replay executes them first.
+    #[serde(default, skip_serializing_if = "Vec::is_empty")]
+    pub prelude: Vec<Plan>,
+    /// "fresh-process" (reproduced by a child process before it was reported) or "batch-context" (could not
+    /// be reproduced outside the batch it was found in; see note)
+    #[serde(default)]
+    pub reproducibility: String,
 }
 
 pub fn hex(b: &[u8]) -> String {
